@@ -12,7 +12,7 @@ pub fn meta(tier: Tier) -> Meta {
             "Cases = (planner in Auto/Scalar/Sse/Avx, f32|f64, direction, n, entry point in process/in-place/out-of-place/immutable, chunk count, input). \
              (a) complete unit-impulse basis for every n in 1..={nb} (one case = all n columns of the matrix through one entry point, single-chunk calls, analytic reference column exp(-+2*pi*i*j*k/n) in double-double); \
              (b) every n in 0..={dense} with impulses at 0,1,n/2,n-1, a dense uniform vector and one rotating structured family, all 4 planners x 4 entry points; \
-             (b2) every n up to 8192 (quick) / 65536 (thorough) in f32 on the three concrete planners with rotating entry point and direction, every 8th length also in f64; (b3) every prime up to 2^15 / 2^18 on the scalar and AVX planners; (b4) n <= 64 with 2, 3 and 4 chunks incl. silent (all-zero) chunks on every entry point; (b5) every prime with 23-smooth p-1 (Rader on every planner) up to 2^17 / 2^20; (b6) ~50 landmark lengths up to 2^17 / 2^20 (2^k, 3*2^k, 5*2^k, primes just above 2^16, large prime powers, 8*3^9) on the three concrete planners; (b7) every n of range (b) on planners with a minimal history (opposite direction of the same length, and a multiple/divisor, planned first); \
+             (b2) every n up to 8192 (quick) / 65536 (thorough) in f32 on the three concrete planners with rotating entry point and direction, every 8th length also in f64; (b3) every prime up to 2^15 / 2^18 on the scalar and AVX planners; (b4) n <= 64 with 2, 3 and 4 chunks incl. silent (all-zero) chunks on every entry point; (b5) every prime with 23-smooth p-1 (Rader on every planner) up to 2^17 / 2^20; (b6) ~60 landmark lengths up to 2^17 (plus 5*2^19 and 21*2^17) / ~100 up to 2^22 (2^k, 3*2^k, 5*2^k, primes just above 2^16/2^18/2^20/2^21, large prime powers, radix-N lengths with >= 9 layers, semiprimes and mixed smooth lengths above 2^21) on the three concrete planners; (b7) every n of range (b) on planners with a minimal history (opposite direction of the same length, and a multiple/divisor, planned first); \
              (c) {cases} proptest-drawn cases over constructed length families up to {nmax} (Rader/Bluestein primes, Cunningham primes, prime powers, semiprimes, smooth numbers, butterfly products and planner thresholds, AVX row residues, smooth*bigprime), 16 input families, 1-3 chunks; \
              (d) exact finite-field instantiation of the portable code for every n up to 768 / 4096: output must equal sum_j x_j*omega^(-+jk) in GF(p^2) with zero tolerance (see C14 for the full version). \
              Oracle: relative L2 distance to an independent reference DFT (own radix-2+Bluestein FFT in f64 for f32 results, in double-double for f64 results, validated against a naive double-double DFT at start-up) <= 4*B, B = 16*eps*log2(2n). \
@@ -182,19 +182,9 @@ pub fn worker(ctx: &mut Ctx) {
     // (b6) landmark lengths: where size-triggered behaviour (index width, digit-reversal depth, table sizes, base tables keyed
     //      by the exponents of 2 and 3) first changes -- every planner, f32 and (up to 2^16) f64
     {
-        let mut marks: Vec<usize> = vec![];
-        let top = ctx.tier.pick(17u32, 20);
-        for k in 13..=top {
-            marks.push(1 << k);
-            if k <= top - 1 {
-                marks.push(3 << (k - 1));
-                marks.push(5 << (k - 2));
-            }
-        }
-        marks.extend([65537usize, 65539, 65543, 65551, 2 * 65539, 3 * 65537, 19683, 59049, 78125, 117649, 14641, 161051, 157464, 131071, 131101, 99991, 100003]);
-        if ctx.tier == Tier::Thorough {
-            marks.extend([262147usize, 524309, 1048583, 177147, 531441, 390625, 823543, 1771561, 787320, 2 * 262147]);
-        }
+        let mut marks = crate::gen::landmark_lengths(ctx.tier.pick(17u32, 21), ctx.tier == Tier::Thorough);
+        // two of the multi-million lengths also in the quick tier (5*2^19 and 21*2^17: mixed radix-N cross factors)
+        marks.extend([5usize << 19, 21 << 17]);
         marks.sort();
         marks.dedup();
         for (i, &n) in marks.iter().enumerate().rev() {
@@ -204,7 +194,7 @@ pub fn worker(ctx: &mut Ctx) {
                 }
                 let input = InputSpec::fam(if i % 2 == 0 { "uniform" } else { "gaussish" }, n as u64);
                 ctx.exec(&Case::new("C01", "numeric", *planner, Ty::F32, DIRS[(i + pi) % 2], n).with_entry(ENTRIES[(i + pi) % 4]).with_input(input.clone()));
-                if n <= 1 << 16 || ctx.tier == Tier::Thorough && n <= 1 << 18 {
+                if n <= 1 << 16 || ctx.tier == Tier::Thorough && n <= 1 << 19 {
                     ctx.exec(&Case::new("C01", "numeric", *planner, Ty::F64, DIRS[(i + pi + 1) % 2], n).with_entry(ENTRIES[(i + pi + 2) % 4]).with_input(input));
                 }
             }
